@@ -343,11 +343,9 @@ def _build(spec, rso_mod=None, variant=None):
         sargs = tuple(dset_constr)
     elif how == 2:
         sargs = (tuple(dset_constr[:1]), list(dset_constr[1:]))
-    elif how == 3:
-        sargs = ((c_ for c_ in dset_constr),)          # a generator
     else:
-        # nested to depth three
-        sargs = ([tuple(dset_constr[:1]), [list(dset_constr[1:])]],)
+        # (minmax/maxmin/forall take iterables one level deep; deeper nesting is refused loudly)
+        sargs = ((c_ for c_ in dset_constr),)          # a generator
     if mode in ('min', 'minmax'):
         m.minmax(obj, *sargs)
     else:
@@ -358,6 +356,7 @@ def _build(spec, rso_mod=None, variant=None):
     # bounds on x and on the rules
     xM, yM = spec['xM'], spec['yM']
     B.user_constr = []
+    pending_st = []
     xform = variant.get('xbound_form', 0)
     for x in xs:
         if xform == 0:
@@ -458,7 +457,12 @@ def _build(spec, rso_mod=None, variant=None):
             if own is not None:
                 c = c.forall(own())
             B.user_constr.append(c)
-            m.st(c)
+            if variant.get('st_nested'):
+                pending_st.append(c)
+            else:
+                m.st(c)
+    if pending_st:        # st() recurses into nested collections
+        m.st([pending_st[:1], (tuple(pending_st[1:2]), [pending_st[2:]])])
     return B
 
 
@@ -779,7 +783,14 @@ def build_dro_single(spec, variant=None):
         return out + e['k']
 
     fset = m.ambiguity()
-    fset.suppset(S.build_rsome(spec['dset'], zfull, rng))
+    sc = list(S.build_rsome(spec['dset'], zfull, rng))
+    how = (variant or {}).get('set_args', 0)
+    if how == 4:          # suppset flattens its arguments completely
+        fset.suppset([tuple(sc[:1]), [list(sc[1:])]])
+    elif how == 1:
+        fset.suppset(*sc)
+    else:
+        fset.suppset(sc)
     mode = spec['mode']
     pcs = [expr(e) for e in spec['pieces']]
     if len(pcs) == 1:
@@ -795,11 +806,17 @@ def build_dro_single(spec, variant=None):
         m.st(x <= xM, x >= -xM)
     for y in ys:
         m.st(y <= yM, y >= -yM)
+    pending = []
     for row in spec['rows']:
         lhs = expr(row['e'])
         c = (lhs <= row['rhs'] if row['sense'] == 'le' else lhs >= row['rhs']
              if row['sense'] == 'ge' else lhs == row['rhs'])
         if row.get('set') is not None:
             c = c.forall(S.build_rsome(row['set'], zpart(spec['nzr']), rng))
-        m.st(c)
+        if (variant or {}).get('st_nested'):
+            pending.append(c)
+        else:
+            m.st(c)
+    if pending:           # st() recurses into nested collections
+        m.st([pending[:1], (tuple(pending[1:2]), [pending[2:]])])
     return B
